@@ -279,3 +279,19 @@ def hessian_layout(run, with_reader=True):
     run.assume("A-ext: np.triu_indices(n) enumerates the upper triangle row by row ((r, c) at position r n - r (r - 1) / 2 + c - r); validated at run time",
                "both stages use the number of parameter columns of negloglike_comp<c>.dat as max_param (read off the two call sites: params_proc.shape[1], params_meas.shape[1])")
     return failed
+
+
+def shape_lemma_library(run):
+    """Facts about validity of arity strings used by the contract of get_allowed_shapes (pyvc/lemmas.py::shape_lemmas)."""
+    from pyvc import lemmas
+    fq = "lemma::validity of arity strings (Lukasiewicz counter)"
+    run.functions.setdefault(fq, {"file": "/verif/pyvc/lemmas.py", "dropped": [], "obligations": 0, "discharged": 0,
+                                  "note": "direct consequences of the counter's definition; the prefix lemma by induction (base, step)"})
+    bad = []
+    for name, st, t in lemmas.prove_shape_lemmas():
+        run.add_obligation("lemma/" + name, fq, st, "z3-%s" % __import__("z3").get_version_string(), t, name)
+        if st != "proved":
+            bad.append(name)
+    if bad:
+        from vlib.common import CheckerError
+        raise CheckerError("shape lemmas not proved: %s" % bad)
